@@ -65,6 +65,7 @@ fn main() {
         "worker" => check::cmd_worker(&args),
         "trace-run" => check::cmd_trace_run(&args),
         "exec" => check::cmd_exec(&args),
+        "dump-trace" => check::cmd_dump_trace(&args),
         "replay" => check::cmd_replay(&args),
         "selfcheck" => check::cmd_selfcheck(&args),
         "list" => {
